@@ -8,8 +8,8 @@ THM_MODULES = ["Minicbor.Thm.Attrs", "Minicbor.Thm.C09"]
 P = "Minicbor.C09."
 REQUIRED = [P + n for n in """dec_roundtrip fields_roundtrip vars_roundtrip derive_roundtrip derive_roundtrip_exact_length
 encVars_eq blob_rt derive_wrong_tag derive_wrong_tag_enum derive_missing_tag resolve_missing derive_missing_mandatory
-derive_unknown_variant derive_enum_indefinite_wrapper_rejected borrowed_leaf_is_input_slice null_clash_counterexample
-derive_decode_reframed_partial derive_decode_reframed_counterexample_K8 derive_decode_reframed_statement_false
+derive_unknown_variant derive_enum_wrong_wrapper_length borrowed_leaf_is_input_slice null_clash_counterexample
+derive_decode_reframed_partial derive_decode_reframed_K8_repaired
 fieldsDec_indef derive_decode_indefinite_struct
 rf_dec rf_fields rf_vars derive_decode_reframed reframed_examples
 pref_rf pref_fields pref_vars reframes_preferred derive_roundtrip_from_reframed val_rf val_fields val_vars reframes_sound
@@ -35,8 +35,8 @@ RULE = ("ddec <type> <hex>: for every type definition and value of the C08 corpu
         "(iii) the documented error class; (iv) an error.  Borrowing is observed by pointer range in the harness.  Values whose Some(x) encodes as null "
         "(Option in Option, Option of a transparent nil) are compared with the model only (documented exclusion).")
 ASSUMPTIONS = list(base.ASSUMPTIONS) + [
-    "the enum wrapper `array(2)` is kept definite in the stream derive-reframed; the separate stream derive-reframed-enum-wrapper makes it indefinite and "
-    "records the rejection as known finding K8 (theorems derive_enum_indefinite_wrapper_rejected / derive_decode_reframed_counterexample_K8)",
+    "the enum wrapper `array(2)` is kept definite in the stream derive-reframed; the separate stream derive-reframed-enum-wrapper makes it indefinite "
+    "(rejected by the generated decoder until the repair of K8; theorem derive_decode_reframed_K8_repaired)",
     "chunked (indefinite-length) strings are not part of the re-framing: String/&str/byte-string decoders reject them by design"]
 
 
@@ -124,9 +124,10 @@ def streams(rng, tier):
             if e[0] == "line":
                 if impl != e[1]: return "violation"
             elif e[0] == "k8":
-                # the property wants the value back; the generated decoder rejects an indefinite enum wrapper (K8)
+                # the property wants the value back (the generated decoder rejected an indefinite enum wrapper until the
+                # repair of K8, 67612a2; a recurrence is a violation like any other)
                 if impl != e[1]:
-                    return ("known", "K8") if impl == model and impl.startswith("err message") else "violation"
+                    return "violation"
             else:
                 iw = impl.split(" ")
                 if iw[0] != "err": return "violation"
@@ -167,7 +168,7 @@ def streams(rng, tier):
             mk("derive-errors", er, "wrong / missing tag, missing mandatory field, unknown top-level variant are errors of the documented class"),
             mk("derive-prefixes", pf, "strict prefixes of an encoding never decode"),
             mk("derive-reframed-enum-wrapper", rw, "re-framings in which the two-element wrapper [variant index, body] of every (non index_only) enum is an "
-               "indefinite-length array: the property demands the value, the code answers with a message error (known finding K8)")]
+               "indefinite-length array: the value must come back (former finding K8, repaired in /repo)")]
     yield base.attr_stream(tier, "decode")
 
 
